@@ -1,5 +1,5 @@
 #!/usr/bin/env python3
-"""Write meta.json for the round-4 to -7 seeded changes from RESULTS.tsv (run after tools/run_seeded.sh)."""
+"""Write meta.json for the round-4 to -9 seeded changes from RESULTS.tsv (run after tools/run_seeded.sh)."""
 import json, os, collections
 V = "/verif/seeded"
 DESC = {
@@ -75,6 +75,28 @@ DESC = {
              "a sow_samples run whose choices are not listed in alphabetical order: values drawn for one argument are passed and recorded under another"),
  "S-C16-7": ("gen_cluster_script wraps batch_ids that are neither list nor tuple into a one-element tuple",
              "explicit batch_ids given as another iterable, e.g. range(2, 4): header range 1-1, the task calls grow(range(2, 4)) and fails, exit status 0"),
+ "S-C01-8": ("parse_combos copies each value list through np.asarray(vals).tolist()",
+             "an argument whose own values mix types ([1, 'x', 2.5]): numpy promotes them to one dtype, the function is called with '1' instead of 1"),
+ "S-C04-8": ("Crop.sow_cases peeks at the first case with next(iter(cases)) for an early length check",
+             "cases given as a one-shot iterator (zip, generator, map): the first case is consumed and never sown"),
+ "S-C05-8": ("Harvester.add_ds skips save_full_ds when the merged dataset is identical to the in-memory one",
+             "un-synced harvests first (no data file yet), then a synced harvest that adds nothing new: nothing is ever written"),
+ "S-C06-8": ("Crop.save_function_to_disk pickles inspect.unwrap(fn)",
+             "a runner whose function is a functools.wraps wrapper that changes results: batches are grown with the undecorated function"),
+ "S-C08-8": ("Crop.grow validates its ids with all(isinstance(i, Integral) for i in batch_ids) before using them",
+             "ids given as a one-shot iterator (generator, reversed(...), map(...)): the check exhausts it, the call returns normally with nothing grown"),
+ "S-C09-8": ("Reaper _load: 'try to read, fall back to the placeholder' catches OSError where FileNotFoundError was meant",
+             "partial reap (allow_incomplete, no wait) with a transient I/O error on a finished batch's result: that batch is silently shown as missing"),
+ "S-C10-8": ("Harvester.save_full_ds writes engine='joblib' files directly under the final name (like zarr)",
+             "joblib-engine harvester crop killed while the data file is being written: earlier harvests lost, every later load raises"),
+ "S-C11-8": ("grow() unlinks an existing result of its batch before evaluating ('drop the outdated result when re-growing')",
+             "the same batch grown twice, the second grower starting after the first finished, while reap(wait=True) is between exists() and open() of that result"),
+ "S-C12-8": ("Harvester.load_full_ds re-reads the file only when its mtime differs from the remembered one",
+             "another writer rewrites the data file within the same timestamp tick while this Harvester object holds an older copy; its next reap merges with the stale copy: conflict not raised / other writer's data overwritten"),
+ "S-C15-8": ("Sampler.gen_cases_fnargs: fast path for range choices draws np.random.randint(start, stop), ignoring the step",
+             "choices given as a range with step > 1: most drawn values are not among the choices"),
+ "S-C16-8": ("grow() returns early ('already grown') when the batch's result file exists",
+             "explicitly requested batch ids whose results already exist: the job evaluates nothing, the old results stay"),
 }
 rows = collections.defaultdict(dict)
 own = {}
@@ -115,7 +137,7 @@ for sid, (change, needs) in DESC.items():
                    "'the hard round: the subtlest violation you can construct that is still clearly inside the property' "
                    "(one data type or shape, a sequence of >= 3 calls, two rarely combined options, an arithmetic "
                    "relation between sizes, dictionary / listing order, a plausible-looking wrong result), and a "
-                   "scratch worktree of /repo (no access to /verif)") if sid.endswith("-7") else
+                   "scratch worktree of /repo (no access to /verif)") if sid.endswith("-7") or sid.endswith("-8") or sid.endswith("-9") else
                   ("independent sub-agent given only the property text, the ideas used in rounds 1-4, a request for a "
                    "change that leaves every sequential fault-free use correct and breaks the property only in one "
                    "crash window / interleaving / I-O error (with a focus area), and a scratch worktree of /repo "
